@@ -53,15 +53,19 @@ def removeAliquotInterveners (txt : Str) : Option Str :=
       (intervenerRemover.group m t "aliquot1").getD [] ++ (intervenerRemover.group m t "aliquot2").getD []))
     (stableBudget txt) txt
 
-def scrubAliquots (txt : Str) (cleanQQ : Bool) : Option Str := do
-  let mut t := txt
-  for r in Gen.QQ_SCRUBBER_REGEXES do
-    t ← subScrubber r t
-  if cleanQQ then
-    for r in Gen.QQ_CLEAN_REGEXES do
-      t ← subScrubber r t
-  t ← halfPlusQScrubber t
-  removeAliquotInterveners t
+def scrubAll (names : List String) (txt : Str) : Option Str :=
+  names.foldlM (fun t r => subScrubber r t) txt
+
+def scrubAliquots (txt : Str) (cleanQQ : Bool) : Option Str :=
+  match scrubAll Gen.QQ_SCRUBBER_REGEXES txt with
+  | none => none
+  | some t =>
+    match (if cleanQQ then scrubAll Gen.QQ_CLEAN_REGEXES t else some t) with
+    | none => none
+    | some t =>
+      match halfPlusQScrubber t with
+      | none => none
+      | some t => removeAliquotInterveners t
 
 def removeFractions (a : Str) : Str :=
   pyReplace (pyReplace a "¼".toList []) "½".toList "2".toList
@@ -134,52 +138,91 @@ def applyLeading (lead : Str) (lots : List Str) (through : Int) : Except PyErr (
   if n > lots.length then .error .indexError else
   .ok (lots.mapIdx (fun i l => if i < n then lead ++ " of ".toList ++ l else l))
 
-def tractParseRaw (origText : Str) (a : ParseArgs) (inherited : Flags) : Except PyErr ParseResult := do
-  let some text := scrubAliquots origText a.cleanQQ
-    | return { text := origText, lots := [], qqs := [], lotAcres := [], aliquotsWhole := [], flags := inherited, diverged := true }
-  let some (rem1, lotBlocks) := extractLots (text.length + 2) text []
-    | return { text := text, lots := [], qqs := [], lotAcres := [], aliquotsWhole := [], flags := inherited, diverged := true }
-  let mut fl := inherited
-  let mut lots : List Str := []
-  let mut lotAcres : List (Str × Str) := []
-  let mut dv := false
-  for (block, leading) in lotBlocks do
-    let u := unpackLots block
-    dv := dv || u.diverged
-    fl := { fl with w := fl.w ++ u.flags, wl := fl.wl ++ u.flagLines }
-    let newLots ← (match leading with
-      | some lead => if !a.suppressLotDivs then applyLeading (removeFractions lead) u.lotList u.aliquotsThrough else .ok u.lotList
-      | none => .ok u.lotList)
-    lots := lots ++ newLots
-    for (lot, acres) in u.lotAcres do
-      match dictGet? lotAcres lot with
-      | some old =>
-        let flag := "dup_lot_acreage<".toList ++ lot ++ "(".toList ++ old ++ ")>".toList
-        fl := { fl with w := fl.w ++ [.str flag], wl := fl.wl ++ [.tup [.str flag, .str flag]] }
-      | none => pure ()
-      lotAcres := dictSet lotAcres lot acres
-  let some (rem2, aliquotBlocks) := extractAliquots (rem1.length + 2) rem1 []
-    | return { text := text, lots := lots, qqs := [], lotAcres := lotAcres, aliquotsWhole := [], flags := fl, diverged := true }
-  let aliquotsWhole := aliquotBlocks.map removeFractions
+def addW (fl : Flags) (flag ctx : Str) : Flags :=
+  { fl with w := fl.w ++ [.str flag], wl := fl.wl ++ [.tup [.str flag, .str ctx]] }
+
+/-- `for lot, acres in lot_acres.items()`: a lot whose acreage was already stated raises `dup_lot_acreage`
+    (the new acreage then overwrites the old) -/
+def acreStep (st : Flags × List (Str × Str)) (la : Str × Str) : Flags × List (Str × Str) :=
+  let fl := match dictGet? st.2 la.1 with
+    | some old =>
+      let flag := "dup_lot_acreage<".toList ++ la.1 ++ "(".toList ++ old ++ ")>".toList
+      addW st.1 flag flag
+    | none => st.1
+  (fl, dictSet st.2 la.1 la.2)
+
+structure LotAcc where
+  fl : Flags
+  lots : List Str := []
+  lotAcres : List (Str × Str) := []
+  dv : Bool := false
+
+/-- the lots of one lot block, qualified by the aliquot written directly before it (unless suppressed) -/
+def blockLots (a : ParseArgs) (u : LotResult) (leading : Option Str) : Except PyErr (List Str) :=
+  match leading with
+  | some lead => if !a.suppressLotDivs then applyLeading (removeFractions lead) u.lotList u.aliquotsThrough else .ok u.lotList
+  | none => .ok u.lotList
+
+/-- one lot block of the first extraction loop -/
+def lotBlockStep (a : ParseArgs) (st : LotAcc) (bl : Str × Option Str) : Except PyErr LotAcc :=
+  let u := unpackLots bl.1
+  let fl : Flags := { st.fl with w := st.fl.w ++ u.flags, wl := st.fl.wl ++ u.flagLines }
+  match blockLots a u bl.2 with
+  | .error e => .error e
+  | .ok newLots =>
+    let r := u.lotAcres.foldl acreStep (fl, st.lotAcres)
+    .ok { fl := r.1, lots := st.lots ++ newLots, lotAcres := r.2, dv := st.dv || u.diverged }
+
+def lotBlocksFold (a : ParseArgs) : LotAcc → List (Str × Option Str) → Except PyErr LotAcc
+  | st, [] => .ok st
+  | st, bl :: rest =>
+    match lotBlockStep a st bl with
+    | .error e => .error e
+    | .ok st' => lotBlocksFold a st' rest
+
+/-- the aliquot blocks to parse: those found, plus 'ALL' when the leftover text says so -/
+def aliquotBlocksOf (aliquotBlocks : List Str) (rem2 : Str) : List Str :=
   let check := pyStrip (Gen.inl_tract_parse_TractParser_parse_0.sub " ".toList rem2)
-  let blocks := match allRx.rx.search check with
-    | some mo => if (allRx.group mo check "context").isNone then aliquotBlocks ++ ["ALL".toList] else aliquotBlocks
-    | none => aliquotBlocks
-  let mut qqs : List Str := []
-  for b in blocks do
-    match Aliquot.parseAliquot b a.depth with
-    | some q => qqs := qqs ++ q
-    | none => dv := true
-  -- gen_flags
+  match allRx.rx.search check with
+  | some mo => if (allRx.group mo check "context").isNone then aliquotBlocks ++ ["ALL".toList] else aliquotBlocks
+  | none => aliquotBlocks
+
+/-- the QQs of every block, concatenated in order; the Bool reports a diverged standardisation -/
+def qqsOf (depth : Aliquot.DepthArgs) (blocks : List Str) : List Str × Bool :=
+  blocks.foldl (fun st b => match Aliquot.parseAliquot b depth with
+    | some q => (st.1 ++ q, st.2)
+    | none => (st.1, true)) ([], false)
+
+/-- `gen_flags`: duplicate lots / QQs -/
+def dupFlags (fl : Flags) (lots qqs : List Str) : Flags :=
   let dupLots := findDuplicates lots
   let dupQQs := findDuplicates qqs
-  if !dupLots.isEmpty then
-    let flag := "dup_lot<".toList ++ pyJoin ",".toList dupLots ++ ">".toList
-    fl := { fl with w := fl.w ++ [.str flag], wl := fl.wl ++ [.tup [.str flag, .str flag]] }
+  let fl := if !dupLots.isEmpty then
+      let flag := "dup_lot<".toList ++ pyJoin ",".toList dupLots ++ ">".toList
+      addW fl flag flag
+    else fl
   if !dupQQs.isEmpty then
     let flag := "dup_qq<".toList ++ pyJoin ",".toList dupQQs ++ ">".toList
-    fl := { fl with w := fl.w ++ [.str flag], wl := fl.wl ++ [.tup [.str flag, .str flag]] }
-  return { text := text, lots := lots, qqs := qqs, lotAcres := lotAcres, aliquotsWhole := aliquotsWhole, flags := fl, diverged := dv }
+    addW fl flag flag
+  else fl
+
+def tractParseRaw (origText : Str) (a : ParseArgs) (inherited : Flags) : Except PyErr ParseResult :=
+  match scrubAliquots origText a.cleanQQ with
+  | none => .ok { text := origText, lots := [], qqs := [], lotAcres := [], aliquotsWhole := [], flags := inherited, diverged := true }
+  | some text =>
+    match extractLots (text.length + 2) text [] with
+    | none => .ok { text := text, lots := [], qqs := [], lotAcres := [], aliquotsWhole := [], flags := inherited, diverged := true }
+    | some (rem1, lotBlocks) =>
+      match lotBlocksFold a { fl := inherited } lotBlocks with
+      | .error e => .error e
+      | .ok st =>
+        match extractAliquots (rem1.length + 2) rem1 [] with
+        | none => .ok { text := text, lots := st.lots, qqs := [], lotAcres := st.lotAcres, aliquotsWhole := [], flags := st.fl, diverged := true }
+        | some (rem2, aliquotBlocks) =>
+          let q := qqsOf a.depth (aliquotBlocksOf aliquotBlocks rem2)
+          .ok { text := text, lots := st.lots, qqs := q.1, lotAcres := st.lotAcres,
+                aliquotsWhole := aliquotBlocks.map removeFractions,
+                flags := dupFlags st.fl st.lots q.1, diverged := st.dv || q.2 }
 
 def Flags.append (a b : Flags) : Flags := { w := a.w ++ b.w, wl := a.wl ++ b.wl, e := a.e ++ b.e, el := a.el ++ b.el }
 
